@@ -74,3 +74,141 @@ def addr_part(ctx):
 def async_part(ctx):
     t = record(ctx, "sys-async")
     validate(ctx, t, ["TrLife"], "asynchronous requests exactly once")
+
+
+# --------------------------------------------------------------------------- Engine.tla: design model + trace binding
+
+ENGINE_INVS = "TypeOK OnShutdownOnce AllOpenedClosedBeforeReturn NothingRunsAfterReturn BootShutdownStartsNothing MainLast InShutdownMeansDone LeakOnlyBehindExit QueuedIsInQueue UnansweredOnlyBehindExit"
+
+
+def engine_design(ctx):
+    """Exhaustive TLC runs of the engine model (acceptors, hand-off queues, shutdown sources, engine.stop, ticker,
+    registrations), safety and liveness, in reactor and reuse-port mode; plus the two configurations in which the
+    strict readings fail (KF-1 / KF-2): the model must reproduce those findings."""
+    suffix = "" if ctx.thorough else "_quick"
+    for m in ("reactor", "reuse"):
+        vlib.tlc_model_check(ctx, "Engine", "Engine_%s%s.cfg" % (m, suffix), timeout=2400, heap="12g")
+    for kf, inv in (("kf1", "NoLeak"), ("kf2", "RegsAnswered")):
+        res = vlib.tlc(ctx, "Engine", "Engine_%s.cfg" % kf, timeout=300, workers=4)
+        if res["violated"] != inv:
+            raise vlib.MachineryError("Engine_%s.cfg: the model no longer reproduces the known finding (expected a counterexample to %s, got %s)" % (kf, inv, res["violated"]))
+        ctx.notes.append("Engine.tla reproduces the known finding behind %s (shortest history: %d states)" % (inv, len(__import__("re").findall(r"^State \d+:", res["out"], __import__("re").M))))
+
+
+def engine_project(trace):
+    """Split a recorded log into engine lives and keep the engine-level events (renamed, nothing computed)."""
+    import json
+    lives, cur = [], None
+    acts = {0: "none", 1: "close", 2: "shutdown", "None": "none", "Close": "close", "Shutdown": "shutdown"}
+    with open(trace) as f:
+        for line in f:
+            d = json.loads(line)
+            ev = d["ev"]
+            if ev == "Reset":
+                cur = None
+                if "reuseport" in d:
+                    cur = {"cfg": d["cfg"], "loops": d["loops"], "reuseport": d["reuseport"], "ticker": d["ticker"], "events": [], "seq0": d["seq"]}
+                    lives.append(cur)
+                continue
+            if cur is None:
+                continue
+            e = None
+            site = d.get("site")
+            if ev == "Gate" and site == "acc.accepted":
+                e = {"ev": "Accept", "h": d["h"], "idx": d["idx"]}
+            elif ev == "Gate" and site == "loop.polling-returned":
+                e = {"ev": "PollingReturned", "idx": d["idx"]}
+            elif ev == "Gate" and site == "eng.triggered":
+                e = {"ev": "Triggered", "idx": d["idx"]}
+            elif ev == "Hook" and site == "el.registered":
+                e = {"ev": "Registered", "h": d["h"], "idx": d["b"]}
+            elif ev == "Hook" and site == "loop.closed":
+                e = {"ev": "LoopClosed", "idx": d["a"]}
+            elif ev == "Hook" and site == "eng.stop":
+                e = {"ev": "Stop", "k": d["a"]}
+            elif ev == "OpenEnd":
+                # OnOpen returning Close is followed by the connection's own Close event: the model closes there
+                a = acts[d["action"]]
+                e = {"ev": "OpenEnd", "h": d["h"], "action": "none" if a == "close" else a}
+            elif ev == "OpenUnknown":
+                e = {"ev": "OpenEnd", "h": d["h"], "action": "none"}
+            elif ev == "TrafficEnd" and acts[d["action"]] == "shutdown":
+                e = {"ev": "TrafficShutdown", "h": d["h"]}
+            elif ev == "Close":
+                a = acts[d["action"]]
+                e = {"ev": "Close", "h": d["h"], "action": "none" if a == "close" else a}
+            elif ev == "CloseUnknown":
+                e = {"ev": "Close", "h": d["h"], "action": "none"}
+            elif ev == "StopReq" and d.get("src") in ("Stop", "Engine.Stop"):
+                e = {"ev": "StopReq"}
+            elif ev == "OnShutdown":
+                e = {"ev": "OnShutdown"}
+            elif ev == "TickEnd" and acts.get(d.get("action", 0)) == "shutdown":
+                e = {"ev": "TickShutdown"}
+            elif ev == "RunRet":
+                e = {"ev": "RunRet"}
+            elif ev == "Truncated":
+                cur["truncated"] = True
+            if e is not None:
+                for k, v in (("h", 0), ("idx", 0), ("action", "none"), ("k", 0)):
+                    e.setdefault(k, v)
+                e["seq"] = d["seq"]
+                cur["events"].append(e)
+    return lives
+
+
+def engine_traces(ctx, trace, what):
+    """Validate every engine life of a recorded log against Engine.tla (EngineTrace.tla), one TLC run per life
+    (the model's constants are the life's configuration).  A life the model cannot explain is reported as a
+    non-conformance (mechanism level): the property verdicts on the same log come from TrLife / TrFd."""
+    import json
+    from concurrent.futures import ThreadPoolExecutor
+    lives = [lv for lv in engine_project(trace) if lv["events"] and not lv.get("truncated")]
+    jobs = []
+    for k, lv in enumerate(lives):
+        d = ctx.sub("englife.%s.%d" % (what.replace(" ", "_").replace("/", "_")[:30], k))
+        tf = os.path.join(d, "life.ndjson")
+        with open(tf, "w") as f:
+            for e in lv["events"]:
+                f.write(json.dumps(e) + "\n")
+        nconn = sum(1 for e in lv["events"] if e["ev"] == ("OpenEnd" if lv["reuseport"] else "Accept"))
+        cfg = os.path.join(ctx.scratch, "EngineTrace_%s_%d.cfg" % (what.replace(" ", "_").replace("/", "_")[:30], k))
+        with open(cfg, "w") as f:
+            f.write("INIT TInit\nNEXT TNext\nCONSTANTS NLoops = %d MaxConns = %d MaxRegs = 0 ReusePort = %s Ticker = %s\n"
+                    "  Sources = {\"stop\", \"open\", \"traffic\", \"close\", \"tick\", \"boot\"}\n"
+                    "INVARIANTS OnShutdownOnce AllOpenedClosedBeforeReturn NothingRunsAfterReturn InShutdownMeansDone QueuedIsInQueue\n"
+                    "POSTCONDITION Accepted\nCHECK_DEADLOCK FALSE\n"
+                    % (lv["loops"], max(nconn, 1), "TRUE" if lv["reuseport"] else "FALSE", "TRUE" if lv["ticker"] else "FALSE"))
+        jobs.append((k, lv, tf, cfg))
+
+    def one(job):
+        k, lv, tf, cfg = job
+        return job, vlib.tlc_trace_file(ctx, "EngineTrace", cfg, tf, name="EngineTrace-%s-%d" % (what.replace(" ", "_")[:20], k), timeout=600)
+
+    with ThreadPoolExecutor(max_workers=8) as ex:
+        results = list(ex.map(one, jobs))
+    ok = 0
+    for (k, lv, tf, cfg), r in results:
+        n = len(lv["events"])
+        if r["accepted"]:
+            ok += 1
+            ctx.traces += 1
+            ctx.trace_events += n
+            ctx.states += r.get("distinct", 0)
+            ctx.transitions += r.get("generated", 0)
+        elif r.get("prefix") is not None or r.get("violated"):
+            at = r.get("prefix")
+            evd = lv["events"][at - 1] if at and at <= n else None
+            keep = os.path.join(vlib.VERIF, "replays", ctx.prop)
+            os.makedirs(keep, exist_ok=True)
+            kept = os.path.join(keep, "englife.%s.%d.seed%d.ndjson" % (what.replace(" ", "_")[:20], k, ctx.seed))
+            with open(kept, "w") as f:
+                f.write(json.dumps({"ev": "Config", "cfg": lv["cfg"], "loops": lv["loops"], "reuseport": lv["reuseport"], "ticker": lv["ticker"]}) + "\n")
+                f.write(open(tf).read())
+            ctx.nonconf.append({"kind": "nonconformance", "sig": "EngineTrace/%s" % (evd["ev"] if evd else r.get("violated")), "count": 1, "path": [kept],
+                                "detail": "Engine.tla cannot explain engine life %d (%s) of %s at its event %s (log seq %s): %s%s" % (
+                                    k, lv["cfg"], what, at, evd and evd.get("seq"), json.dumps(evd), (" invariant " + r["violated"]) if r.get("violated") else "")})
+        else:
+            raise vlib.MachineryError("EngineTrace did not complete on life %d of %s:\n%s" % (k, what, "\n".join(r["out"].splitlines()[-30:])))
+    ctx.log("EngineTrace %s: %d of %d engine lives explained by Engine.tla" % (what, ok, len(jobs)))
+    return ok, len(jobs)
